@@ -327,4 +327,288 @@ theorem set_args (ev : Node → Gather) (a : SetArgs) (tty : Bool) (ld : Option 
   · intro h
     simp [set, h]
 
+/-! ## yaml-paths -/
+
+section
+variable (valid : Str → Bool) (find : Node → Str → List Str)
+
+theorem addHits_mem (e : Str) (ps : List Str) (acc : List Hit) (h : Hit) (hm : h ∈ addHits e ps acc) :
+    h ∈ acc ∨ (h.1 = e ∧ h.2 ∈ ps) := by
+  induction ps generalizing acc with
+  | nil => exact Or.inl hm
+  | cons p ps ih =>
+    simp only [addHits] at hm
+    rcases ih _ hm with h1 | h2
+    · split at h1
+      · exact Or.inl h1
+      · rcases List.mem_append.mp h1 with h3 | h3
+        · exact Or.inl h3
+        · simp only [List.mem_singleton] at h3
+          subst h3
+          exact Or.inr ⟨rfl, List.mem_cons_self⟩
+    · exact Or.inr ⟨h2.1, List.mem_cons_of_mem _ h2.2⟩
+
+theorem addHits_mono (e : Str) (ps : List Str) (acc : List Hit) (h : Hit) (hm : h ∈ acc) :
+    h ∈ addHits e ps acc := by
+  induction ps generalizing acc with
+  | nil => exact hm
+  | cons p ps ih =>
+    simp only [addHits]
+    apply ih
+    split
+    · exact hm
+    · exact List.mem_append_left _ hm
+
+theorem any_snd_iff (acc : List Hit) (p : Str) : acc.any (·.2 == p) = true ↔ p ∈ acc.map (·.2) := by
+  simp only [List.any_eq_true, beq_iff_eq, List.mem_map]
+
+theorem addHits_complete (e : Str) (ps : List Str) (acc : List Hit) (p : Str) (hp : p ∈ ps) :
+    p ∈ (addHits e ps acc).map (·.2) := by
+  induction ps generalizing acc with
+  | nil => cases hp
+  | cons q ps ih =>
+    simp only [addHits]
+    rcases List.mem_cons.mp hp with rfl | h
+    · by_cases hc : acc.any (·.2 == p) = true
+      · simp only [hc, ↓reduceIte]
+        obtain ⟨x, hx, hx2⟩ := List.mem_map.mp ((any_snd_iff acc p).mp hc)
+        exact List.mem_map.mpr ⟨x, addHits_mono e ps acc x hx, hx2⟩
+      · simp only [hc, Bool.false_eq_true, ↓reduceIte]
+        exact List.mem_map.mpr ⟨(e, p), addHits_mono e ps _ _ (List.mem_append_right _ List.mem_cons_self), rfl⟩
+    · exact ih _ h
+
+theorem addHits_nodup (e : Str) (ps : List Str) (acc : List Hit) (hn : (acc.map (·.2)).Nodup) :
+    ((addHits e ps acc).map (·.2)).Nodup := by
+  induction ps generalizing acc with
+  | nil => exact hn
+  | cons p ps ih =>
+    simp only [addHits]
+    apply ih
+    by_cases hc : acc.any (·.2 == p) = true
+    · simpa [hc] using hn
+    · simp only [hc, Bool.false_eq_true, ↓reduceIte, List.map_append, List.map_cons, List.map_nil]
+      have hnot : p ∉ acc.map (·.2) := fun hm => hc ((any_snd_iff acc p).mpr hm)
+      rw [List.nodup_append]
+      refine ⟨hn, by simp, ?_⟩
+      intro a ha b hb
+      simp only [List.mem_singleton] at hb
+      subst hb
+      intro hab
+      subst hab
+      exact hnot ha
+
+/-- Invariant of the search loop. -/
+theorem searchLoop_inv (d : Node) (es : List Str) (acc : List Hit) (bad : Bool) (all : List Str)
+    (hsub : ∀ e ∈ es, e ∈ all)
+    (hacc : ∀ h ∈ acc, h.1 ∈ all ∧ valid h.1 = true ∧ h.2 ∈ find d h.1)
+    (hn : (acc.map (·.2)).Nodup) :
+    (∀ h ∈ (searchLoop valid find d es acc bad).1, h.1 ∈ all ∧ valid h.1 = true ∧ h.2 ∈ find d h.1)
+    ∧ ((searchLoop valid find d es acc bad).1.map (·.2)).Nodup
+    ∧ (∀ h ∈ acc, h ∈ (searchLoop valid find d es acc bad).1)
+    ∧ (∀ e ∈ es, valid e = true → ∀ p ∈ find d e, p ∈ (searchLoop valid find d es acc bad).1.map (·.2))
+    ∧ ((searchLoop valid find d es acc bad).2 = true ↔ bad = true ∨ ∃ e ∈ es, valid e = false) := by
+  induction es generalizing acc bad with
+  | nil =>
+    simp only [searchLoop, List.not_mem_nil, false_and, exists_false, or_false, imp_self, implies_true, and_true,
+      false_implies]
+    exact ⟨hacc, hn⟩
+  | cons e es ih =>
+    have hsub' : ∀ x ∈ es, x ∈ all := fun x hx => hsub x (List.mem_cons_of_mem _ hx)
+    by_cases hv : valid e = true
+    · simp only [searchLoop, hv, ↓reduceIte]
+      have hacc' : ∀ h ∈ addHits e (find d e) acc, h.1 ∈ all ∧ valid h.1 = true ∧ h.2 ∈ find d h.1 := by
+        intro h hm
+        rcases addHits_mem e (find d e) acc h hm with h1 | ⟨h2, h3⟩
+        · exact hacc h h1
+        · rw [h2]; exact ⟨hsub e List.mem_cons_self, hv, h3⟩
+      obtain ⟨i1, i2, i3, i4, i5⟩ := ih (addHits e (find d e) acc) bad hsub' hacc' (addHits_nodup e _ acc hn)
+      refine ⟨i1, i2, fun h hm => i3 h (addHits_mono e _ acc h hm), ?_, ?_⟩
+      · intro x hx hvx p hp
+        rcases List.mem_cons.mp hx with rfl | hx'
+        · obtain ⟨y, hy, hy2⟩ := List.mem_map.mp (addHits_complete x (find d x) acc p hp)
+          exact List.mem_map.mpr ⟨y, i3 y hy, hy2⟩
+        · exact i4 x hx' hvx p hp
+      · rw [i5]
+        constructor
+        · rintro (h | ⟨x, hx, hxv⟩)
+          · exact Or.inl h
+          · exact Or.inr ⟨x, List.mem_cons_of_mem _ hx, hxv⟩
+        · rintro (h | ⟨x, hx, hxv⟩)
+          · exact Or.inl h
+          · rcases List.mem_cons.mp hx with rfl | hx'
+            · rw [hv] at hxv; cases hxv
+            · exact Or.inr ⟨x, hx', hxv⟩
+    · simp only [searchLoop, hv, Bool.false_eq_true, ↓reduceIte]
+      obtain ⟨i1, i2, i3, i4, i5⟩ := ih acc true hsub' hacc hn
+      refine ⟨i1, i2, i3, ?_, ?_⟩
+      · intro x hx hvx p hp
+        rcases List.mem_cons.mp hx with rfl | hx'
+        · exact absurd hvx hv
+        · exact i4 x hx' hvx p hp
+      · rw [i5]
+        simp only [true_or, true_iff]
+        exact Or.inr ⟨e, List.mem_cons_self, by simpa using hv⟩
+
+theorem eraseP_excl (acc : List Hit) (p : Str) (hn : (acc.map (·.2)).Nodup) :
+    p ∉ (acc.eraseP (·.2 == p)).map (·.2) := by
+  induction acc with
+  | nil => simp
+  | cons x xs ih =>
+    simp only [List.map_cons, List.nodup_cons] at hn
+    by_cases hx : x.2 = p
+    · simp only [List.eraseP_cons, hx, beq_self_eq_true, cond_true]
+      rw [← hx]; exact hn.1
+    · have : (x.2 == p) = false := by simpa using hx
+      simp only [List.eraseP_cons, this, cond_false, List.map_cons, List.mem_cons, not_or]
+      exact ⟨fun h => hx h.symm, ih hn.2⟩
+
+theorem dropHits_sublist (ps : List Str) (acc : List Hit) : List.Sublist (dropHits ps acc) acc := by
+  induction ps generalizing acc with
+  | nil => exact List.Sublist.refl _
+  | cons p ps ih => exact (ih _).trans (List.eraseP_sublist)
+
+theorem dropHits_excl (ps : List Str) (acc : List Hit) (hn : (acc.map (·.2)).Nodup) (p : Str) (hp : p ∈ ps) :
+    p ∉ (dropHits ps acc).map (·.2) := by
+  induction ps generalizing acc with
+  | nil => cases hp
+  | cons q ps ih =>
+    simp only [dropHits]
+    have hn' : ((acc.eraseP (·.2 == q)).map (·.2)).Nodup := (List.eraseP_sublist.map _).nodup hn
+    rcases List.mem_cons.mp hp with rfl | h
+    · intro hm
+      exact eraseP_excl acc p hn (((dropHits_sublist ps _).map _).subset hm)
+    · exact ih _ hn' h
+
+theorem dropHits_keeps (ps : List Str) (acc : List Hit) (h : Hit) (hm : h ∈ acc) (hp : h.2 ∉ ps) :
+    h ∈ dropHits ps acc := by
+  induction ps generalizing acc with
+  | nil => exact hm
+  | cons q ps ih =>
+    simp only [dropHits]
+    apply ih
+    · rw [List.mem_eraseP_of_neg]
+      · exact hm
+      · simp only [beq_iff_eq]
+        intro hq
+        exact hp (hq ▸ List.mem_cons_self)
+    · exact fun hq => hp (List.mem_cons_of_mem _ hq)
+
+theorem exceptLoop_inv (d : Node) (es : List Str) (acc : List Hit) (bad : Bool)
+    (hn : (acc.map (·.2)).Nodup) :
+    List.Sublist (exceptLoop valid find d es acc bad).1 acc
+    ∧ (∀ x ∈ es, valid x = true → ∀ p ∈ find d x, p ∉ (exceptLoop valid find d es acc bad).1.map (·.2))
+    ∧ (∀ h ∈ acc, (∀ x ∈ es, valid x = true → h.2 ∉ find d x) → h ∈ (exceptLoop valid find d es acc bad).1)
+    ∧ ((exceptLoop valid find d es acc bad).2 = true ↔ bad = true ∨ ∃ e ∈ es, valid e = false) := by
+  induction es generalizing acc bad with
+  | nil => simp [exceptLoop]
+  | cons e es ih =>
+    by_cases hv : valid e = true
+    · simp only [exceptLoop, hv, ↓reduceIte]
+      have hs := dropHits_sublist (find d e) acc
+      have hn' : ((dropHits (find d e) acc).map (·.2)).Nodup := (hs.map _).nodup hn
+      obtain ⟨i1, i2, i3, i4⟩ := ih (dropHits (find d e) acc) bad hn'
+      refine ⟨i1.trans hs, ?_, ?_, ?_⟩
+      · intro x hx hvx p hp
+        rcases List.mem_cons.mp hx with rfl | hx'
+        · intro hm
+          exact dropHits_excl (find d x) acc hn p hp ((i1.map _).subset hm)
+        · exact i2 x hx' hvx p hp
+      · intro h hm hfree
+        apply i3 h
+        · exact dropHits_keeps _ acc h hm (hfree e List.mem_cons_self hv)
+        · exact fun x hx hvx => hfree x (List.mem_cons_of_mem _ hx) hvx
+      · rw [i4]
+        constructor
+        · rintro (h | ⟨x, hx, hxv⟩)
+          · exact Or.inl h
+          · exact Or.inr ⟨x, List.mem_cons_of_mem _ hx, hxv⟩
+        · rintro (h | ⟨x, hx, hxv⟩)
+          · exact Or.inl h
+          · rcases List.mem_cons.mp hx with rfl | hx'
+            · rw [hv] at hxv; cases hxv
+            · exact Or.inr ⟨x, hx', hxv⟩
+    · simp only [exceptLoop, hv, Bool.false_eq_true, ↓reduceIte]
+      obtain ⟨i1, i2, i3, i4⟩ := ih acc true hn
+      refine ⟨i1, ?_, ?_, ?_⟩
+      · intro x hx hvx p hp
+        rcases List.mem_cons.mp hx with rfl | hx'
+        · exact absurd hvx hv
+        · exact i2 x hx' hvx p hp
+      · intro h hm hfree
+        exact i3 h hm (fun x hx hvx => hfree x (List.mem_cons_of_mem _ hx) hvx)
+      · rw [i4]
+        simp only [true_or, true_iff]
+        exact Or.inr ⟨e, List.mem_cons_self, by simpa using hv⟩
+
+/-- The hits printed for one document. -/
+theorem pathsDoc_spec (a : PathsArgs) (d : Node) :
+    (∀ h ∈ (pathsDoc valid find a d).1, h.1 ∈ a.search ∧ valid h.1 = true ∧ h.2 ∈ find d h.1)
+    ∧ ((pathsDoc valid find a d).1.map (·.2)).Nodup
+    ∧ (∀ x ∈ a.exc, valid x = true → ∀ p ∈ find d x, p ∉ (pathsDoc valid find a d).1.map (·.2))
+    ∧ (∀ e ∈ a.search, valid e = true → ∀ p ∈ find d e,
+        (∀ x ∈ a.exc, valid x = true → p ∉ find d x) → p ∈ (pathsDoc valid find a d).1.map (·.2))
+    ∧ ((∀ e ∈ a.search, valid e = true) → (∀ e ∈ a.exc, valid e = true) → (pathsDoc valid find a d).2 = none) := by
+  obtain ⟨s1, s2, _, s4, s5⟩ := searchLoop_inv valid find d a.search [] false a.search (fun _ h => h)
+    (by simp) (by simp)
+  unfold pathsDoc
+  cases hsl : searchLoop valid find d a.search [] false with
+  | mk hits bad =>
+    rw [hsl] at s1 s2 s4 s5
+    simp only at s1 s2 s4 s5 ⊢
+    by_cases hemp : hits.isEmpty = true
+    · have hnil : hits = [] := by simpa using hemp
+      subst hnil
+      simp only [List.isEmpty_nil, ↓reduceIte, List.not_mem_nil, false_implies, implies_true, List.map_nil,
+        List.nodup_nil, not_false_eq_true, true_and]
+      refine ⟨?_, ?_⟩
+      · intro e he hve p hp _
+        exact absurd (s4 e he hve p hp) (by simp)
+      · intro hall _
+        have : bad = false := by
+          cases hb : bad with
+          | false => rfl
+          | true =>
+            obtain ⟨e, he, hne⟩ := (s5.mp hb).resolve_left (by simp)
+            rw [hall e he] at hne; cases hne
+        simp [this]
+    · simp only [hemp, Bool.false_eq_true, ↓reduceIte]
+      obtain ⟨x1, x2, x3, x4⟩ := exceptLoop_inv valid find d a.exc hits false s2
+      cases hel : exceptLoop valid find d a.exc hits false with
+      | mk kept bad' =>
+        rw [hel] at x1 x2 x3 x4
+        simp only at x1 x2 x3 x4 ⊢
+        refine ⟨fun h hm => s1 h (x1.subset hm), (x1.map _).nodup s2, x2, ?_, ?_⟩
+        · intro e he hve p hp hfree
+          obtain ⟨y, hy, hy2⟩ := List.mem_map.mp (s4 e he hve p hp)
+          exact List.mem_map.mpr ⟨y, x3 y hy (fun x hx hvx => hy2 ▸ hfree x hx hvx), hy2⟩
+        · intro hall hall'
+          have hb : bad = false := by
+            cases hb : bad with
+            | false => rfl
+            | true =>
+              obtain ⟨e, he, hne⟩ := (s5.mp hb).resolve_left (by simp)
+              rw [hall e he] at hne; cases hne
+          have hb' : bad' = false := by
+            cases hb' : bad' with
+            | false => rfl
+            | true =>
+              obtain ⟨e, he, hne⟩ := (x4.mp hb').resolve_left (by simp)
+              rw [hall' e he] at hne; cases hne
+          simp [hb, hb']
+
+/-- The lines of one input whose documents all loaded: per document, in stream order, its hits tagged
+with the input's position and the document index. -/
+def fileLines (a : PathsArgs) (fi : Nat) : Nat → List Node → List PLine
+  | _, [] => []
+  | i, d :: ds => (pathsDoc valid find a d).1.map (fun h => (fi, i, h)) ++ fileLines a fi (i + 1) ds
+
+theorem pathsFile_lines (a : PathsArgs) (fi i : Nat) (ds : List Node) (st : Nat) :
+    (pathsFile valid find a fi i (ds.map some) st).1 = fileLines valid find a fi i ds := by
+  induction ds generalizing i st with
+  | nil => simp [pathsFile, fileLines]
+  | cons d ds ih =>
+    simp only [List.map_cons, pathsFile, fileLines]
+    rw [ih]
+end
+
 end Ypv.Cli.Lemmas
